@@ -117,6 +117,20 @@ CLAIMED = {
         "controlled region (free) -- its model is checked exhaustively instead.",
    technique="PlusCal/TLA+ models checked by TLC + controlled-schedule / free execution of the real loops + TLC evaluation of recorded summaries",
    engine="mc+ctl+free+tv", design_ref="6/C03"),
+ "C06": dict(
+   category="model_checking",
+   text="HB.tla specifies C++11 happens-before as vector clocks honouring each operation's requested memory_order (release sequences "
+        "through RMWs, relaxed stores ending them, mutex lock/unlock, a global clock over-approximating the seq_cst order). The prelude "
+        "interposes std::atomic/mutex/condition_variable at compile time and records, in one total order, every synchronisation "
+        "operation of real executions (serialised free-running threads and controlled schedules): lock hand-over for SimpleLock, PtrLock, "
+        "PaddedLock, ThreadRWlock (with occupancy counters for exclusion), arrive->depart for six barriers, lockable hand-over and "
+        "worklist push->pop inside for_each, entry to and return from on_each/do_all/for_each/pool.run in both pool modes; harness-"
+        "declared plain accesses must be ordered by the clocks TLC computes (NoRace). SpinLock.tla (mutual exclusion, NoRace, admission "
+        "under fairness, all interleavings of 3 threads) takes its memory orders from the recorded stream of the real lock.",
+   note="Trusted: TLC, the prelude/stream recorder. DRF argument: race-freedom of SC interleavings under the declared orders; non-SC executions "
+        "are not enumerated; atomic_thread_fence and __sync builtins are not interposed.",
+   technique="TLA+ vector-clock happens-before specification + TLC trace validation of recorded operation streams + TLC model of the spin lock with orders extracted from the code",
+   engine="mc+ctl+free+tv", design_ref="6/C06"),
 }
 
 NOT_YET = "check not built yet in this round (specification and harness planned in DESIGN.md section 6); not claimed"
